@@ -148,7 +148,14 @@ def make(hname, height=5, tops=(0, 1, 2), ND=2, NP=2, W=4, table=0, select=("C09
         cur_top = newtop
         while cur_top > top:
             trig = core.zeros(NP, b8)
-            ok = CP.backtrack(stats, ne, du, st, trig, triggers)
+            try:
+                ok = CP.backtrack(stats, ne, du, st, trig, triggers)
+            except Obligation as o:
+                # backtrack() used what the heuristic recorded for this alternative as an index: it was never written
+                E.acc.count("obligation:" + o.kind)
+                if o.model is not None:
+                    viol("C09", "alternative-record-unusable-on-backtrack", o.model, None, detail=o.detail, level=cur_top - 1)
+                return
             cur_top -= 1
             bad = [z3.BoolVal(not ok), z3.BoolVal(int(st[0]) != cur_top)]
             for d in range(ND):
